@@ -7,8 +7,10 @@ import (
 	"encoding/json"
 	"flag"
 	"fmt"
+	"github.com/taurusgroup/multi-party-sig/verifharness/fault"
 	"os"
 	"sort"
+	"strconv"
 	"strings"
 
 	"github.com/taurusgroup/multi-party-sig/pkg/party"
@@ -106,6 +108,28 @@ func reference(s *protos.Session, seed string, focus party.ID) (map[slotKey]*pro
 	return slots, canonMsgs(r.Engine.Parties[focus].Emitted), protos.Canon(r.Results[focus]), r
 }
 
+// commonResult: protocols whose parties all output the same value (the XOR of the contributions, a signature).
+// The in-order run every other order is compared with must itself be right: its parties must agree.
+func commonResult(proto string) bool {
+	return proto == "xor" || strings.HasSuffix(proto, "-sign")
+}
+
+func referenceAgrees(proto string, r *protos.RunResult) string {
+	if !commonResult(proto) {
+		return ""
+	}
+	first, who := "", party.ID("")
+	for id, res := range r.Results {
+		c := protos.Canon(res)
+		if first == "" {
+			first, who = c, id
+		} else if c != first {
+			return fmt.Sprintf("the parties of the in-order run do not output the same value: %s and %s differ", who, id)
+		}
+	}
+	return ""
+}
+
 func cmdOrders(args []string) {
 	fs := flag.NewFlagSet("orders", flag.ExitOnError)
 	proto := fs.String("proto", "toy:b,bm", "protocol")
@@ -114,13 +138,27 @@ func cmdOrders(args []string) {
 	histFile := fs.String("hist", "", "file with one JSON history per line")
 	out := fs.String("out", "", "summary output")
 	seed := fs.String("seed", "0", "seed label")
+	badSlot := fs.String("bad", "", "bad mode: from/round/broadcast of the slot whose message is made to fail verification; histories are HISTB records")
 	fs.Parse(args)
 	F := party.ID(*focus)
+	var badKey *slotKey
+	if *badSlot != "" {
+		parts := strings.Split(*badSlot, "/")
+		if len(parts) != 3 {
+			fatal("bad slot %q", *badSlot)
+		}
+		rd, _ := strconv.Atoi(parts[1])
+		badKey = &slotKey{parts[0], rd, parts[2] == "true"}
+	}
 
 	sess := build(*proto, *n, *seed, []byte("sid-A"))
-	slots, refEm, refRes, _ := reference(sess, *seed, F)
+	slots, refEm, refRes, refRun := reference(sess, *seed, F)
 	other := build(*proto, *n, *seed, []byte("sid-B"))
 	oslots, _, _, _ := reference(other, *seed, F)
+	var fails []failure
+	if why := referenceAgrees(*proto, refRun); why != "" {
+		fails = append(fails, failure{Case: "in-order run", What: "reference-results-differ", Detail: why})
+	}
 
 	f, err := os.Open(*histFile)
 	if err != nil {
@@ -129,7 +167,6 @@ func cmdOrders(args []string) {
 	defer f.Close()
 	sc := bufio.NewScanner(f)
 	sc.Buffer(make([]byte, 1<<20), 1<<26)
-	var fails []failure
 	evals, nontrivial := 0, 0
 	distinct := map[string]bool{}
 	var samples []json.RawMessage
@@ -139,7 +176,21 @@ func cmdOrders(args []string) {
 			continue
 		}
 		var hist []histItem
-		if err := json.Unmarshal([]byte(line), &hist); err != nil {
+		var post struct {
+			St   string   `json:"st"`
+			Ek   string   `json:"ek"`
+			Culp []string `json:"culp"`
+		}
+		if badKey != nil {
+			var rec struct {
+				Items []histItem      `json:"items"`
+				Post  json.RawMessage `json:"post"`
+			}
+			if err := json.Unmarshal([]byte(line), &rec); err != nil || json.Unmarshal(rec.Post, &post) != nil {
+				fatal("bad history record %q: %v", line, err)
+			}
+			hist = rec.Items
+		} else if err := json.Unmarshal([]byte(line), &hist); err != nil {
 			fatal("bad history %q: %v", line, err)
 		}
 		evals++
@@ -178,6 +229,27 @@ func cmdOrders(args []string) {
 			switch it.Kind {
 			case "new", "dup":
 				d = m
+				if badKey != nil && key == *badKey {
+					// the same message with its value altered: decodes, fails the protocol's verification
+					d = sim.CloneMsg(m)
+					leaves, err := fault.Leaves(m.Data)
+					if err != nil {
+						fatal("leaves: %v", err)
+					}
+					path := ""
+					for _, l := range leaves {
+						if l.Kind == "bytes" && strings.HasSuffix(l.Path, "/V") {
+							path = l.Path
+						}
+					}
+					if path == "" {
+						fatal("bad mode needs a protocol whose content has a field V (toy)")
+					}
+					d.Data, err = fault.Mutate(m.Data, path, "flipfirst", nil, sim.NewRng(1))
+					if err != nil {
+						fatal("mutate: %v", err)
+					}
+				}
 			case "wrongSSID":
 				d = oslots[key]
 				expectIgnored = true
@@ -221,6 +293,25 @@ func cmdOrders(args []string) {
 			continue
 		}
 		st := p.Status()
+		if badKey != nil {
+			// the specification's final state of this order: an error naming the sender of the failing message
+			var culp []string
+			for _, c := range st.Culprits {
+				culp = append(culp, string(c))
+			}
+			kind := ""
+			if st.St == "err" {
+				kind = sim.ClassifyErr(st.Err, F, st.Culprits)
+			}
+			if st.St != post.St || kind != post.Ek || strings.Join(culp, ",") != strings.Join(post.Culp, ",") {
+				fail("end-state-differs", fmt.Sprintf("the handler ends %s/%s %v (%v); HandlerLocal.tla says %s/%s %v", st.St, kind, culp, st.Err, post.St, post.Ek, post.Culp))
+			}
+			p.Drain()
+			if !p.Closed || p.Closes != 1 {
+				fail("channel", fmt.Sprintf("after the error: closed=%v closes=%d", p.Closed, p.Closes))
+			}
+			continue
+		}
 		if st.St != "done" {
 			fail("not-done", fmt.Sprintf("status %s err=%v", st.St, st.Err))
 			continue
@@ -271,6 +362,7 @@ func cmdTraces(args []string) {
 	for id, r := range ref.Results {
 		refRes[id] = protos.Canon(r)
 	}
+	refProblem := referenceAgrees(*proto, ref)
 	w, err := os.Create(*out)
 	if err != nil {
 		fatal("%v", err)
@@ -280,6 +372,9 @@ func cmdTraces(args []string) {
 	defer bw.Flush()
 	enc := json.NewEncoder(bw)
 	var fails []failure
+	if refProblem != "" {
+		fails = append(fails, failure{Case: "in-order run", What: "reference-results-differ", Detail: refProblem})
+	}
 	lines := 0
 	shapeB, shapeM := map[int]bool{}, map[int]bool{}
 	R := 0
